@@ -6,7 +6,10 @@ Log == ndJsonDeserialize(IOEnv.TRACE)
 VARIABLE l
 \* observed handshakes may exceed the model's bound by one (a rekey that falls on the edge of the window); the
 \* bound is ChannelTime!MaxHellosAt evaluated at the REAL duration of the traffic phase (a busy machine stretches it)
-Bound(ev) == 1 + (ev.ticks \div ev.R) + (IF ev.pat = "both" THEN 0 ELSE (ev.ticks \div ev.K) + 1)
+\* Both endpoints may own an armed rekey timer (after a simultaneous open both were initiators of a prospective
+\* session, and proposeNewSession arms the timer for each): up to two InitHellos per rekey interval are rekeys,
+\* not idle teardown.
+Bound(ev) == 2 * (1 + (ev.ticks \div ev.R)) + (IF ev.pat = "both" THEN 0 ELSE (ev.ticks \div ev.K) + 1)
 Viol(ev) ==
     (IF ev.panic THEN {"NoPanic"} ELSE {})
     \* (steady-traffic cases only: the short traffic phase of the after-expiry cases ends within a tick of the first
